@@ -80,7 +80,10 @@ def api_case(draw, tier):
 
 FIELD = st.one_of(
     st.sampled_from(["a", "b c", "", "7", "-3", "2.5", "1e3", "x;y", "x; y ;z",
-                     "p;q|r;s", "k__A; p__B", "007", "5.0", "abc", "é"]),
+                     "p;q|r;s", "k__A; p__B", "007", "5.0", "abc", "é",
+                     # characters str.splitlines() breaks on but a
+                     # tab-separated *line* does not end at
+                     "a\u2028b", "x\x0cy z", "p\x85q", "m\x1dn", "v\x0bw"]),
     st.text("abcXYZ019 ._-;|", max_size=6).map(lambda s: s.strip()))
 COLS = ["Treatment", "pH", "Days", "taxonomy", "KEGG", "Body Site", "Notes"]
 OVERRIDE_NAMES = ["SampleID", "c1", "c2", "c3", "c4", "c5", "c6", "c7"]
@@ -380,8 +383,13 @@ def check_file(case, rec):
                 arg = os.path.join(d, "map.txt")
                 with open(arg, "w", encoding="utf8") as f:
                     f.write(text)
-            got = MetadataMap.from_file(arg, process_fns=pf,
-                                        header=case["header_override"])
+            held = list(arg) if how == "list" else None
+            hdr = case["header_override"]
+            hdr_held = list(hdr) if hdr is not None else None
+            got = MetadataMap.from_file(arg, process_fns=pf, header=hdr)
+            if (held is not None and arg != held) or hdr != hdr_held:
+                bad("input-modified", "from_file changed the list of lines "
+                    "/ header names it was given")
         got = {k: dict(v) for k, v in got.items()}
         if got != want:
             bad("mapping-parse", "parsed %r, the rows describe %r" %
